@@ -332,6 +332,11 @@ def poison(ctx, seed, ref):
     c1 = random_call(rng, kind)
     if kind in (0, 10):
         c1[2].pop('fmt', None)                              # a dictionary / list result, not text
+    if kind in (4, 5, 6) and seed % 2:
+        # a spelling of the data directory no call has used before: the first call is a cache miss for certain (what the
+        # caller of a miss holds must not be the cache entry either)
+        dd = os.path.join(paths.REPO, 'basis_set_exchange', 'data') + '/.' * (2 + seed % 97)
+        c1 = (c1[0], (), {'data_dir': dd})
     for _ in range(40):
         c2 = random_call(rng, kind)
         if (c2[1], c2[2]) != (c1[1], c1[2]):
